@@ -14,6 +14,8 @@ import (
 	"math/rand/v2"
 	"os"
 	"path/filepath"
+	"sort"
+	"strings"
 	"testing"
 	"testing/cryptotest"
 
@@ -55,7 +57,7 @@ func gen(r *rand.Rand) WL {
 	if r.IntN(3) == 0 {
 		w.ShortReads = 1 + r.IntN(7)
 	}
-	w.Edit = []string{"delnode", "addedge", "kind", "none"}[r.IntN(4)]
+	w.Edit = []string{"delnode", "addedge", "kind", "rewire", "rewire", "none"}[r.IntN(6)]
 	if r.IntN(8) == 0 {
 		p := stor.GenDB(r, 2, 6, 6)
 		w.Pair = &p
@@ -336,6 +338,34 @@ func execPair(t *testing.T, w WL, cfg simrt.Config, base string, o simh.Outcome)
 	return o
 }
 
+// graphMetrics is an independent rendering of what the manifest's metrics block is documented to
+// contain (counts; node-kind, edge-kind, in/out/total-degree and endpoint-kind histograms). It is
+// only used to decide whether an edit MUST be noticed by Verify: if these differ, Verify must fail.
+func graphMetrics(g *simdb.GraphData) string {
+	kindsOf := map[graph.ID]string{}
+	in, out := map[graph.ID]int{}, map[graph.ID]int{}
+	nodeKinds, edgeKinds, endpoint := map[string]int{}, map[string]int{}, map[string]int{}
+	for _, n := range g.Nodes {
+		ks := append([]string{}, n.Kinds...)
+		sort.Strings(ks)
+		kindsOf[n.ID] = strings.Join(ks, "\x00")
+		nodeKinds[kindsOf[n.ID]]++
+	}
+	for _, r := range g.Rels {
+		out[r.Start]++
+		in[r.End]++
+		edgeKinds[r.Kind]++
+		endpoint[kindsOf[r.Start]+"|"+r.Kind+"|"+kindsOf[r.End]]++
+	}
+	hi, ho, ht := map[int]int{}, map[int]int{}, map[int]int{}
+	for _, n := range g.Nodes {
+		hi[in[n.ID]]++
+		ho[out[n.ID]]++
+		ht[in[n.ID]+out[n.ID]]++
+	}
+	return fmt.Sprint(len(g.Nodes), len(g.Rels), nodeKinds, edgeKinds, hi, ho, ht, endpoint)
+}
+
 func edit(db *simdb.DB, w WL) bool {
 	for _, gs := range w.DB.Graphs {
 		if !db.HasGraph(gs.Name) {
@@ -360,6 +390,33 @@ func edit(db *simdb.DB, w WL) bool {
 			g.AddRel(&simdb.Rel{ID: 999999, Start: g.Nodes[0].ID, End: g.Nodes[len(g.Nodes)-1].ID, Kind: "Injected", Props: map[string]any{}})
 		case "kind":
 			g.Nodes[0].Kinds = append(append([]string{}, g.Nodes[0].Kinds...), "InjectedKind")
+		case "rewire":
+			// move the start of one relationship to another node (no self loops before or after, so that
+			// degree definitions are unambiguous); counts stay the same, some histogram usually changes
+			before := graphMetrics(g)
+			done := false
+			for _, r := range g.Rels {
+				if r.Start == r.End {
+					continue
+				}
+				for _, n := range g.Nodes {
+					if n.ID != r.Start && n.ID != r.End {
+						old := r.Start
+						r.Start = n.ID
+						if graphMetrics(g) != before {
+							done = true
+							break
+						}
+						r.Start = old
+					}
+				}
+				if done {
+					break
+				}
+			}
+			if !done {
+				continue
+			}
 		}
 		return true
 	}
